@@ -163,40 +163,10 @@ func (c *Conn) Hash() int {
 func (c *Conn) AsyncRead() {
 	g := c.p.g
 
-	// If is EPOLLONESHOT, run the read job directly, because the reading event wouldn't
-	// be re-dispatched before this reading event has been handled and set again.
-	if g.isOneshot {
-		g.IOExecute(func(pbuf *[]byte) {
-			for i := 0; i < g.MaxConnReadTimesPerEventLoop; i++ {
-				// the previous delivery shrank the buffer to the size of its data.
-				*pbuf = (*pbuf)[:cap(*pbuf)]
-				bufLen := len(*pbuf)
-				rc, n, err := c.ReadAndGetConn(pbuf)
-				if n > 0 {
-					*pbuf = (*pbuf)[:n]
-					g.onDataPtr(rc, pbuf)
-				}
-				if errors.Is(err, syscall.EINTR) {
-					continue
-				}
-				if errors.Is(err, syscall.EAGAIN) {
-					break
-				}
-				if err != nil {
-					_ = c.closeWithError(err)
-					return
-				}
-				if n < bufLen && !c.IsUDP() {
-					break
-				}
-			}
-			c.ResetPollerEvent()
-		})
-		return
-	}
-
-	// If is not EPOLLONESHOT, the reading event may be re-dispatched for more than
-	// once, here we reduce the duplicate reading events.
+	// The reading event may be re-dispatched while a read job is still running:
+	// without EPOLLONESHOT by every new edge, with EPOLLONESHOT when a Write or a
+	// flush re-arms the descriptor for its backlog. Never run two read jobs of
+	// one connection at the same time; here we reduce the duplicate reading events.
 	cnt := atomic.AddInt32(&c.readEvents, 1)
 	if cnt > 2 {
 		atomic.AddInt32(&c.readEvents, -1)
@@ -236,6 +206,9 @@ func (c *Conn) AsyncRead() {
 				}
 			}
 			if atomic.AddInt32(&c.readEvents, -1) == 0 {
+				if g.isOneshot {
+					c.ResetPollerEvent()
+				}
 				return
 			}
 		}
